@@ -553,7 +553,8 @@ func writeEvidence(path, prop, tier string, seed int64, l *loaded, results []*ha
 		labelsReached += len(r.Reached)
 		perHarness[r.Name] = map[string]interface{}{"paths": r.Paths, "infeasible": r.Infeasible, "obligations": r.Oblig,
 			"by_label": r.ObligByLabel, "queries": r.Solver.Queries, "solver_time_s": round2(r.Solver.Time.Seconds()), "max_query_s": round2(r.Solver.MaxQuery.Seconds()),
-			"wall_s": round2(r.Wall.Seconds()), "steps": r.Steps, "unknown_branches": r.UnknownBr, "aborted": r.Aborted, "capped": r.Capped}
+			"wall_s": round2(r.Wall.Seconds()), "steps": r.Steps, "unknown_branches": r.UnknownBr, "aborted": r.Aborted, "capped": r.Capped,
+			"bounds": harnessBounds(l, r.Name, tier)}
 		n := 0
 		for _, s := range r.Samples {
 			if n >= 3 {
